@@ -1,5 +1,6 @@
 import MpsVerif.Proofs.IterQueueInv
 import MpsVerif.Proofs.IterQueueTime
+import MpsVerif.Proofs.IterQueueLive
 /-!
 # C17 — IterableQueue delivers every item once and every consumer finishes
 
@@ -164,6 +165,44 @@ example :
     let c : Cfg := { m := 1, n := 1, cap := 0, w := 1 }
     ∃ s, Reachable c s ∧ s.stop = some 2 ∧ s.now = 3 ∧ (s.cons.map (·.pc)) = [.stopped] := by
   refine ⟨_, ⟨[.cChk1 0, .tick, .cRetry 0, .tick, .cRetry 0, .setStop, .tick, .cStop 0], rfl⟩, ?_⟩
+  decide
+
+/-- **Every consumer finishes.**  Let all suppliers have ended (`put_end` returned).  Then
+    (1) *progress*: as long as no stop is requested and some consumer's iteration has not ended, some
+    consumer can make a real move (nobody is blocked for good: not on the data queue, not on the
+    lock, not on a token queue, not in `put(None)`);
+    (2) *bounded work*: in any continuation without supplier and `renew` actions the consumers make at
+    most `mu s` real moves (`mu` = positions in `__next__` + 2·values queued + 20·tokens applied);
+    (3) no supplier action is enabled, (4) `renew` can only start when every consumer has ended, and
+    (5) all other actions leave the suppliers as they are — so (1)–(2) apply to the whole rest of the
+    round.  Hence every maximal execution in which the stutter steps (`tick`, retries after an
+    expired wait) do not starve the consumers ends with every consumer `done`. -/
+theorem C17_all_finish (c : Cfg) (hm : 1 ≤ c.m) (hn : 1 ≤ c.n) (s : State) (hr : Reachable c s)
+    (hsup : ∀ a ∈ s.sups, a.pc = .ended) :
+    (s.stop = none → (∃ a ∈ s.cons, a.pc ≠ .done) →
+        ∃ act, isConsMove act = true ∧ (step c s act).isSome = true) ∧
+    (∀ as s', Core.run (step c) s as = some s' →
+        (∀ a ∈ as, isSupAct a = false ∧ isRenewAct a = false) → as.countP isConsMove + mu s' ≤ mu s) ∧
+    (∀ act, isSupAct act = true → step c s act = none) ∧
+    (∀ s', step c s .rStart = some s' → ∀ a ∈ s.cons, a.pc = .done) ∧
+    (∀ act s', step c s act = some s' → isSupAct act = false → isRenewAct act = false → s'.sups = s.sups) := by
+  have hi := all_reachable c hm hn hr
+  have ht := tinv_reachable c hr
+  refine ⟨fun hstop hnd => cons_progress c s hi ht hstop hsup hnd,
+          fun as s' hrun hall => moves_le_mu c as s s' hrun hall,
+          fun act hact => sup_disabled c s hsup act hact, ?_,
+          fun act s' hs h1 h2 => sups_unchanged c s s' act (step_sound c s s' act hs) h1 h2⟩
+  intro s' hs
+  cases step_sound c s s' _ hs with
+  | rStartOk _ hall _ => exact hall
+  | rStartFail _ hall _ => exact hall
+
+/-- non-vacuity of `C17_all_finish`: one supplier has put a value and ended, two consumers are inside
+    `get`; 54 units of work are left -/
+example :
+    let c : Cfg := { m := 1, n := 2, cap := 0, w := 1 }
+    ∃ s, Reachable c s ∧ (∀ a ∈ s.sups, a.pc = .ended) ∧ s.cons.map (·.pc) = [.get, .get] ∧ mu s = 54 := by
+  refine ⟨_, ⟨[.sPutBeg 0 5, .sPut 0, .sEndBeg 0, .sApply 0, .sMark 0, .cChk1 0, .cChk1 1], rfl⟩, ?_⟩
   decide
 
 /-- non-vacuity: two suppliers, two consumers; both consumers meet at the token hand-over (the
